@@ -208,38 +208,31 @@ Proof.
     cbn [yields]. rewrite yields_app, Y. cbn. now rewrite S.
 Qed.
 
-(* groupby *)
-Lemma groupby_loop_yields key k l : forall gk vs,
-  yields (groupby_loop key k gk vs l) =
-  match groupby_list key l with
-  | (k2, g2) :: rest => if (k2 =? gk)%Z then (gk, vs ++ g2) :: rest else (gk, vs) :: (k2, g2) :: rest
-  | [] => [(gk, vs)]
-  end.
+(* groupby: for an ARBITRARY key comparison `same` (nothing assumed: not reflexive, symmetric or transitive) *)
+Lemma groupby_loop_yields same key k : forall l n gk vs, length l <= n ->
+  yields (groupby_loop same key k gk vs l) =
+  (gk, vs ++ takewhile_list (fun y => same gk (key y)) l)
+  :: groupby_fuel n same key (dropwhile_list (fun y => same gk (key y)) l).
 Proof.
-  induction l as [|x r IH]; intros gk vs; cbn [groupby_loop groupby_list]; ysimp; [reflexivity|].
-  destruct (Z.eqb_spec (key x) gk) as [E|E]; cbn [negb yields].
-  - rewrite IH. destruct (groupby_list key r) as [|[k2 g2] rest].
-    + rewrite E, Z.eqb_refl. reflexivity.
-    + destruct (Z.eqb_spec (key x) k2) as [E2|E2].
-      * destruct (Z.eqb_spec k2 gk); [|congruence]. now rewrite <- app_assoc.
-      * destruct (Z.eqb_spec k2 gk); [congruence|]. rewrite E, Z.eqb_refl. reflexivity.
-  - rewrite IH. destruct (groupby_list key r) as [|[k2 g2] rest].
-    + destruct (Z.eqb_spec (key x) gk); [congruence|]. reflexivity.
-    + destruct (Z.eqb_spec (key x) k2) as [E2|E2].
-      * destruct (Z.eqb_spec k2 (key x)); [|congruence]. destruct (Z.eqb_spec k2 gk); [congruence|].
-        subst k2. reflexivity.
-      * destruct (Z.eqb_spec k2 (key x)); [congruence|]. destruct (Z.eqb_spec (key x) gk); [congruence|].
-        reflexivity.
+  induction l as [|x r IH]; intros n gk vs Hn; cbn [groupby_loop takewhile_list dropwhile_list]; ysimp.
+  - rewrite app_nil_r. destruct n; reflexivity.
+  - cbn [length] in Hn. destruct (same gk (key x)) eqn:E; cbn [negb yields].
+    + rewrite (IH n gk (vs ++ [x])) by lia. now rewrite <- app_assoc.
+    + rewrite app_nil_r. destruct n as [|n]; [lia|]. cbn [groupby_fuel].
+      rewrite (IH n (key x) [x]) by lia. reflexivity.
 Qed.
 
-Theorem groupby_agrees : forall key s, outcome (groupby_model key s) = groupby_spec key (snd s).
+Theorem groupby_agrees : forall same key s, outcome (groupby_model same key s) = groupby_spec same key (snd s).
 Proof.
-  intros key [k l]. unfold outcome, groupby_model, groupby_spec. cbn [fst snd].
-  destruct l as [|x r]; cbn [fst snd]; ysimp; [reflexivity|].
-  rewrite groupby_loop_yields. cbn [groupby_list].
-  destruct (groupby_list key r) as [|[k2 g2] rest]; [reflexivity|].
-  destruct (Z.eqb_spec k2 (key x)); destruct (Z.eqb_spec (key x) k2); try congruence; subst; reflexivity.
+  intros same key [k l]. unfold outcome, groupby_model, groupby_spec. cbn [fst snd].
+  destruct l as [|x r]; cbn [fst snd length groupby_fuel]; ysimp; [reflexivity|].
+  now rewrite (groupby_loop_yields same key k r (length r) (key x) [x] (le_n _)).
 Qed.
+
+(* the comparison before the F35 fix (`!=` alone) splits a run of one NaN object that itertools keeps together *)
+Theorem groupby_pre_F35_refuted_pinned :
+  exists key s, outcome (groupby_model eq_only key s) <> groupby_spec same_obj key (snd s).
+Proof. exists (fun x => x), (KSync, [99; 99; 1]%Z). vm_compute. discriminate. Qed.
 
 (* cycle *)
 Lemma concat_repeat_snoc (w : list Z) m : concat (repeat w (S m)) = concat (repeat w m) ++ w.
@@ -307,6 +300,9 @@ Qed.
 Lemma below_mono i stop : below i stop = false -> below (i + 1)%Z stop = false.
 Proof. destruct stop as [s|]; cbn; [lia|congruence]. Qed.
 
+Lemma yields_poll {A} k (t : list (event A)) : yields (poll k ++ t) = yields t.
+Proof. destruct k; reflexivity. Qed.
+
 Lemma islice_filter_past start stop step l : forall i,
   below i stop = false -> filter (islice_sel start stop step) (enumZ i l) = [].
 Proof.
@@ -320,24 +316,22 @@ Lemma islice_go_yields k start stop step l : forall index y,
   map snd (filter (islice_sel start stop step) (enumZ index l)).
 Proof.
   induction l as [|x r IH]; intros index y.
-  - cbn. destruct (below index stop); ysimp; reflexivity.
+  - cbn. destruct (below index stop); rewrite ?yields_poll, ?yields_tail; reflexivity.
   - cbn [islice_go enumZ filter]. unfold islice_sel at 1. cbn [fst].
     destruct (below index stop) eqn:B.
-    + rewrite andb_true_r. ysimp.
+    + rewrite andb_true_r, yields_poll.
       destruct ((start <=? index)%Z && ((index - start) mod step =? 0)%Z); cbn [yields map snd]; now rewrite IH.
-    + rewrite andb_false_r. cbn [andb]. ysimp.
+    + rewrite andb_false_r. cbn [andb]. rewrite yields_tail.
       fold (islice_sel start stop step). rewrite islice_filter_past; [reflexivity|].
       apply below_mono, B.
 Qed.
 
-Lemma islice_filter_empty start st step l : forall i,
-  (0 <= i)%Z -> (st <= 0 \/ st <= start)%Z ->
-  filter (islice_sel start (Some st) step) (enumZ i l) = [].
+(* selecting up to limit = max(start, stop) selects the same elements as selecting up to stop *)
+Lemma islice_sel_limit start stop step p :
+  islice_sel start (islice_limit start stop) step p = islice_sel start stop step p.
 Proof.
-  induction l as [|x r IH]; intros i Hi H; cbn [enumZ filter]; [reflexivity|].
-  unfold islice_sel at 1. cbn [fst below].
-  replace ((start <=? i)%Z && (i <? st)%Z) with false by lia. cbn [andb].
-  apply IH; lia.
+  unfold islice_sel, islice_limit. destruct stop as [st|]; [|reflexivity]. cbn [below].
+  f_equal. destruct (Z.leb_spec start (fst p)); cbn [andb]; [|reflexivity]. lia.
 Qed.
 
 Definition islice_model3 (a b c : option Z) (s : src) : trace Z :=
@@ -347,9 +341,7 @@ Definition islice_model3 (a b c : option Z) (s : src) : trace Z :=
   let start := dflt 0%Z a in
   let step := dflt 1%Z c in
   if (step <=? 0)%Z then ([], Some ValueError) else
-  if (match b with Some st => (st =? 0)%Z || (start =? st)%Z | None => false end)
-  then ([Ck], None)
-  else (islice_go (fst s) start b step (snd s) 0%Z false, None).
+  (islice_go (fst s) start (islice_limit start b) step (snd s) 0%Z false, None).
 
 Definition islice_spec3 (a b c : option Z) (l : list Z) : list Z * option err :=
   if neg_opt a || neg_opt b || neg_opt c || (dflt 1 c <=? 0)%Z then ([], Some ValueError)
@@ -362,13 +354,8 @@ Proof.
   destruct (neg_opt b) eqn:Nb; [reflexivity|].
   destruct (neg_opt c) eqn:Nc; [reflexivity|].
   cbn [orb]. destruct (dflt 1 c <=? 0)%Z; [reflexivity|].
-  destruct b as [st|].
-  - destruct ((st =? 0)%Z || (dflt 0 a =? st)%Z) eqn:E.
-    + unfold outcome. cbn [fst snd yields].
-      rewrite islice_filter_empty; [reflexivity|lia|].
-      cbn in Nb. lia.
-    + unfold outcome. cbn [fst snd]. now rewrite islice_go_yields.
-  - unfold outcome. cbn [fst snd]. now rewrite islice_go_yields.
+  unfold outcome. cbn [fst snd]. rewrite islice_go_yields. do 2 f_equal.
+  apply filter_ext. intros p. apply islice_sel_limit.
 Qed.
 
 Theorem islice_agrees : forall args s, outcome (islice_model args s) = islice_spec args (snd s).
@@ -378,6 +365,90 @@ Proof.
   - exact (islice3_agrees None a None s).
   - exact (islice3_agrees a b None s).
   - exact (islice3_agrees a b c s).
+Qed.
+
+(* consumption: the source is asked min(len + 1, max(start, stop)) times (len + 1 = all elements and the exhaustion),
+   i.e. exactly min(len, max(start, stop)) elements are taken from it - for all start, stop, step *)
+Lemma count_next_app {A} (a b : list (event A)) : count_next (a ++ b) = count_next a + count_next b.
+Proof. unfold count_next. now rewrite filter_app, app_length. Qed.
+
+Lemma count_next_poll {A} k : count_next (@poll A k) = 1.
+Proof. destruct k; reflexivity. Qed.
+
+Lemma count_next_tail {A} y : count_next (@tail A y) = 0.
+Proof. destruct y; reflexivity. Qed.
+
+Lemma islice_go_polls k start limit step l : forall index y,
+  count_next (islice_go k start limit step l index y) =
+  match limit with
+  | None => S (length l)
+  | Some m => Nat.min (S (length l)) (Z.to_nat (m - index))
+  end.
+Proof.
+  induction l as [|x r IH]; intros index y; cbn [islice_go]; destruct (below index limit) eqn:B;
+    rewrite ?count_next_app, ?count_next_poll, ?count_next_tail.
+  - destruct limit as [m|]; cbn [below length] in *; lia.
+  - destruct limit as [m|]; cbn [below length] in *; [lia|discriminate].
+  - destruct ((start <=? index)%Z && ((index - start) mod step =? 0)%Z);
+      [change (count_next (Yield x :: islice_go k start limit step r (index + 1)%Z true))
+         with (count_next (islice_go k start limit step r (index + 1)%Z true))|];
+      rewrite IH; destruct limit as [m|]; cbn [below length] in *; lia.
+  - destruct limit as [m|]; cbn [below length] in *; [lia|discriminate].
+Qed.
+
+Theorem islice_consumption : forall a b c s,
+  snd (islice_model3 a b c s) = None ->
+  count_next (fst (islice_model3 a b c s)) =
+    match b with
+    | None => S (length (snd s))
+    | Some st => Nat.min (S (length (snd s))) (Z.to_nat (Z.max (dflt 0 a) st))
+    end /\
+  Nat.min (count_next (fst (islice_model3 a b c s))) (length (snd s)) = islice_consumed [a; b; c] (snd s).
+Proof.
+  intros a b c s. unfold islice_model3, islice_consumed. cbn [slice_args].
+  destruct (neg_opt a); [discriminate|]. destruct (neg_opt b); [discriminate|].
+  destruct (neg_opt c); [discriminate|]. destruct (dflt 1 c <=? 0)%Z; [discriminate|].
+  intros _. cbn [fst snd]. rewrite islice_go_polls. unfold islice_limit.
+  destruct b as [st|]; rewrite ?Z.sub_0_r; split; try reflexivity; lia.
+Qed.
+
+(* the shape before the F36 fix does not consume what itertools consumes: islice(it, 2, 2) took nothing *)
+Theorem islice_pre_F36_refuted_pinned :
+  exists args s, snd (islice_model_pre_F36 args s) = None /\
+                 Nat.min (count_next (fst (islice_model_pre_F36 args s))) (length (snd s)) <> islice_consumed args (snd s).
+Proof. exists [Some 2; Some 2]%Z, (KSync, [0; 1; 2]%Z). vm_compute. split; [reflexivity|discriminate]. Qed.
+
+(* chain(islice(it, *args), it) over one shared iterator: the slice, then exactly what itertools leaves *)
+Lemma drain_nx_yields k l : yields (drain_nx k l) = l.
+Proof. induction l as [|x r IH]; cbn [drain_nx]; [destruct k; reflexivity|]. rewrite yields_poll. cbn. now rewrite IH. Qed.
+
+Lemma islice_then_rest3 ko a b c s :
+  outcome (islice_then_rest_model ko [a; b; c] s) = islice_then_rest_spec [a; b; c] (snd s) /\
+  islice_model [a; b; c] s = islice_model3 a b c s /\ islice_spec [a; b; c] (snd s) = islice_spec3 a b c (snd s).
+Proof.
+  split; [|split; reflexivity].
+  unfold islice_then_rest_model, islice_then_rest_spec.
+  change (islice_model [a; b; c] s) with (islice_model3 a b c s).
+  pose proof (islice3_agrees a b c s) as Ag. change (islice_spec [a; b; c] (snd s)) with (islice_spec3 a b c (snd s)).
+  unfold outcome in Ag. destruct (islice_spec3 a b c (snd s)) as [ys e] eqn:Sp. injection Ag as Hy He.
+  cbn [snd fst]. rewrite He. destruct e as [e|].
+  - assert (ys = []) as -> by (unfold islice_spec3 in Sp; destruct (_ || _); [now injection Sp|discriminate Sp]).
+    unfold outcome. cbn [fst snd]. now rewrite yields_app, yields_pre, Hy.
+  - destruct (islice_consumption a b c s He) as (_ & Hc). rewrite Hc.
+    unfold outcome. cbn [fst snd].
+    rewrite !yields_app, !yields_pre, drain_nx_yields, yields_tail, Hy. cbn. now rewrite app_nil_r.
+Qed.
+
+Theorem islice_then_rest_agrees : forall ko args s,
+  outcome (islice_then_rest_model ko args s) = islice_then_rest_spec args (snd s).
+Proof.
+  intros ko args s.
+  destruct args as [|a [|b [|c [|d rest]]]].
+  - unfold outcome, islice_then_rest_model, islice_then_rest_spec. cbn. now rewrite yields_app, yields_pre.
+  - exact (proj1 (islice_then_rest3 ko None a None s)).
+  - exact (proj1 (islice_then_rest3 ko a b None s)).
+  - exact (proj1 (islice_then_rest3 ko a b c s)).
+  - unfold outcome, islice_then_rest_model, islice_then_rest_spec. cbn. now rewrite yields_app, yields_pre.
 Qed.
 
 (* batched *)
@@ -887,17 +958,17 @@ Proof.
 Qed.
 
 (* groupby *)
-Lemma groupby_loop_good key k : forall l gk vs, yields (groupby_loop key k gk vs l) <> [].
+Lemma groupby_loop_good same key k : forall l gk vs, yields (groupby_loop same key k gk vs l) <> [].
 Proof.
   induction l as [|x r IH]; intros gk vs; cbn [groupby_loop]; ysimp; [discriminate|].
-  destruct (negb (key x =? gk)%Z); [discriminate|apply IH].
+  destruct (negb (same gk (key x))); [discriminate|apply IH].
 Qed.
 
-Theorem groupby_checkpoints : forall key s,
-  is_sync (fst s) = true \/ yields (fst (groupby_model key s)) = [] ->
-  has_ck (fst (groupby_model key s)) = true.
+Theorem groupby_checkpoints : forall same key s,
+  is_sync (fst s) = true \/ yields (fst (groupby_model same key s)) = [] ->
+  has_ck (fst (groupby_model same key s)) = true.
 Proof.
-  intros key [k l] H. unfold groupby_model in *. cbn [fst snd] in *.
+  intros same key [k l] H. unfold groupby_model in *. cbn [fst snd] in *.
   destruct l as [|x r]; cbn [fst] in *.
   - rewrite has_ck_pre_app. cbn. apply orb_true_r.
   - destruct H as [H|H]; [now apply sync_pre|]. revert H. ysimp. intros H.
@@ -905,6 +976,9 @@ Proof.
 Qed.
 
 (* islice *)
+Lemma sync_poll {A} k (t : list (event A)) : is_sync k = true -> has_ck (poll k ++ t) = true.
+Proof. destruct k; [reflexivity|discriminate]. Qed.
+
 Lemma islice_go_good k start stop step : forall l index, good (islice_go k start stop step l index false).
 Proof.
   induction l as [|x r IH]; intros index; cbn [islice_go]; destruct (below index stop);
@@ -915,7 +989,7 @@ Qed.
 Lemma islice_go_starts k start stop step l index :
   is_sync k = true -> has_ck (islice_go k start stop step l index false) = true.
 Proof.
-  intros H. destruct l; cbn [islice_go]; destruct (below index stop); try reflexivity; now apply sync_pre.
+  intros H. destruct l; cbn [islice_go]; destruct (below index stop); try reflexivity; now apply sync_poll.
 Qed.
 
 Lemma islice3_checkpoints a b c s :
@@ -926,7 +1000,6 @@ Proof.
   unfold islice_model3.
   destruct (neg_opt a); [discriminate|]. destruct (neg_opt b); [discriminate|].
   destruct (neg_opt c); [discriminate|]. destruct (dflt 1 c <=? 0)%Z; [discriminate|].
-  destruct (match b with Some st => (st =? 0)%Z || (dflt 0 a =? st)%Z | None => false end); [reflexivity|].
   cbn [fst snd]. intros _ [H|H]; [now apply islice_go_starts|].
   apply good_use; [apply islice_go_good|exact H].
 Qed.
@@ -1096,12 +1169,19 @@ Proof. vm_compute. auto. Qed.
 Example takewhile_ex_empty : yields (fst (takewhile_model (fun _ => false) (KAsync, [1; 2]))) = [] /\
   fst (takewhile_model (fun _ => false) (KAsync, [1; 2])) = [Ck].
 Proof. vm_compute. auto. Qed.
-Example groupby_ex : outcome (groupby_model (fun x => x mod 2) (KSync, [1; 3; 2; 4; 5])) =
-  ([(1, [1; 3]); (0, [2; 4]); (1, [5])], None) /\ fst (groupby_model (fun x => x) (KAsync, [])) = [Ck].
-Proof. vm_compute. auto. Qed.
+Example groupby_ex : outcome (groupby_model Z.eqb (fun x => x mod 2) (KSync, [1; 3; 2; 4; 5])) =
+  ([(1, [1; 3]); (0, [2; 4]); (1, [5])], None) /\ fst (groupby_model Z.eqb (fun x => x) (KAsync, [])) = [Ck] /\
+  (* one NaN object (99) twice, another NaN object (199), the int 1: the run of the same object is one group *)
+  outcome (groupby_model same_obj (fun x => x) (KAsync, [99; 99; 199; 1; 1])) =
+    ([(99, [99; 99]); (199, [199]); (1, [1; 1])], None) /\
+  (* a key function that returns one NaN object for every element: a single group *)
+  outcome (groupby_model same_obj (fun _ => 99) (KSync, [0; 1; 2])) = ([(99, [0; 1; 2])], None).
+Proof. vm_compute. repeat split. Qed.
 Example islice_ex : outcome (islice_model [Some 1; None; Some 2] (KAsync, [0; 1; 2; 3; 4])) = ([1; 3], None) /\
-  islice_model [Some 2; Some 2] (KAsync, [0; 1; 2]) = ([Ck], None) /\
-  fst (islice_model [Some 5; Some 9] (KAsync, [0; 1; 2])) = [Ck] /\
+  islice_model [Some 2; Some 2] (KAsync, [0; 1; 2]) = ([Nx; Nx; Ck], None) /\
+  islice_model [Some 5; Some 1] (KAsync, [0; 1; 2]) = ([Nx; Nx; Nx; Nx; Ck], None) /\
+  islice_model [Some 0] (KSync, [0; 1]) = ([Ck], None) /\
+  outcome (islice_then_rest_model KSync [Some 2; Some 2] (KAsync, [0; 1; 2; 3])) = ([2; 3], None) /\
   islice_model [Some (-1)] (KSync, [0]) = ([], Some ValueError) /\
   islice_model [Some 0; Some 1; Some 0] (KSync, [0]) = ([], Some ValueError) /\
   islice_model [] (KSync, [0]) = ([], Some TypeError).
